@@ -44,11 +44,13 @@ SPEC = {
     'level': 'proof',
     'timeout': {'quick': 600, 'thorough': 2400},
     'case_timeout': 120,
-    'rule': 'one case = one random object of one of 10 kinds (MDP::Model, SparseModel, Experience, SparseExperience, Policy, '
-            'POMDP::Policy, POMDP::Model/SparseModel over dense/sparse MDPs), alternating dyadic and "ugly" values (1/3, 0.1, '
-            'DBL_MAX, denormals, random bit patterns); three protocol lines per case: rt (write, load into a different '
-            'destination, compare bits and decisions), trunc (EVERY strict byte prefix), corrupt (every token x 8 corruptions); '
-            'every single load is replayed by the Lean reader on the same bytes. non-trivial = every line; distinct by line',
+    'rule': 'one case = one random object of one of 11 kinds (MDP::Model, SparseModel, Experience, SparseExperience, Policy, '
+            'POMDP::Policy, POMDP::Model/SparseModel over dense/sparse MDPs, bare Vector), alternating dyadic and "ugly" values (1/3, 0.1, '
+            'DBL_MAX, denormals, random bit patterns); cases 0-3 are fixed witnesses (precision, 2^53+1 count, copied policy, '
+            'IncrementalPruning tiger policy + tiger model). Protocol lines per case: rt (write, load into a different destination with a '
+            'trailer behind, compare bits, unread rest, decisions), trunc (EVERY strict byte prefix), corrupt (every token x 9 corruptions), '
+            'bcorrupt (24/60 single-byte overwrites), xload x6 (neighbouring destination shapes). Every single load is replayed by the Lean '
+            'reader on the same bytes (signal, object, unread rest). non-trivial = every line; distinct by line',
     'modelled': ['src/Utils/IO.cpp: every write()/read() overload',
                  'src/MDP/IO.cpp: operator<< / operator>> of Experience, SparseExperience, Model, SparseModel, PolicyInterface/Policy',
                  'include/AIToolbox/POMDP/IO.hpp: operator<< / operator>> of POMDP::Model<M>, POMDP::SparseModel<M>',
@@ -56,7 +58,7 @@ SPEC = {
                  'libstdc++ num_get for unsigned long and double, printf %.{p}g, Eigen setFromTriplets, isProbability, setDiscount guard: modelled, tied by the differential run'],
     'assumptions': ['17 significant digits identify a double (hypothesis RT / Dbl17 of the round-trip theorems; evaluated by the driver on every value of every generated object: rt lines compare the model reload with the original)',
                     'non-finite values (inf/nan are written as text no reader accepts) are outside the quantifier',
-                    'isProbability sums are exact rationals in the model (doubles in the code): corrupted rows land far from the 1e-6 tolerance'],
+                    'isProbability sums are exact rationals in the model (doubles in the code): outcomes whose margin to the 1e-6 tolerance is below 1e-9 are tagged ill_conditioned and not judged'],
     'trusted_base': ['tools/extract_c17.py (writer precisions, sparse-table value type, commit-last discipline -> AITB.Gen.IOPrec)',
                      'decide +kernel (kernel evaluation, no compiler trust) for the five witness theorems'],
 }
